@@ -473,6 +473,13 @@ func runCheck(prop, tier string, only, casesOverride, budgetOverride int) int {
 				defer wg.Done()
 				from := 0
 				for restarts := 0; restarts < 25; restarts++ {
+					mu.Lock()
+					tooMany := len(a.deaths) >= 6
+					mu.Unlock()
+					if tooMany {
+						// enough dead workers to report; do not spend the budget on more
+						return
+					}
 					job := Job{Mode: "run", Prop: prop, Tier: tier, Seed: seed, Worker: w, Workers: W, From: from, To: casesOverride, Deadline: deadline, Known: knownSigs, Only: only, MaxViol: 3}
 					r := runWorker(pl.bin, job, pl.env, 180*time.Second)
 					merge(r)
